@@ -592,7 +592,7 @@ func init() {
 		Real:        []string{"core/store/overlaydb OverlayDB.ChangeHash / GetWriteSet / MemDB", "native/storage CacheDB (Commit/Reset routing)", "core/store/leveldbstore (two equal backends)"},
 		Stub:        []string{"StateStore.AddStateMerkleTreeRoot / replica state roots are observed by E1, not here"},
 		Assumptions: []string{"SHA-256 collision resistance (different byte streams => different digests)", "Go's map iteration order cannot be seeded: each digest/listing is repeated 8 times in-process; a map-order dependence would replay with probability >= 1-2^-7, not exactly", "deleted-then-absent vs never-written is not asserted either way (property text); direction is reported as a probe"},
-		QuickRuns:   2400, ThoroughRuns: 150000, QuickCap: 40, ThoroughCap: 700,
+		QuickRuns:   2400, ThoroughRuns: 100000, QuickCap: 40, ThoroughCap: 700,
 		RequiredProbes: []string{"equal_pair_via_different_histories", "different_pair_digest_differs", "route_tx", "route_direct", "route_rollback", "route_reads"},
 		Generate:       c11Generate,
 		Execute:        c11Execute,
